@@ -4,7 +4,7 @@ from . import gen, proj
 
 PARSER_ASSUMPTIONS = [
     "serde_json/serde_yaml/json5/toml decoding are oracles: the model starts from the decoded tree written by the generator",
-    "syn::Ident validity modelled for ASCII identifiers + keyword table; non-ASCII XID identifiers are outside the model (cases where they matter are counted as unmodelled)",
+    "syn::Ident validity modelled for ASCII identifiers + keyword table; non-ASCII XID identifiers, Rust comments inside a candidate identifier (`{{ x //c }}`) and raw identifiers are outside the model (cases where they matter are counted as unmodelled)",
     "ICU4X plural rules (categories(), category_for) are an oracle supplied by the harness for the exercised points",
     "floats are exact decimals in the model; generators avoid values where f32/f64 rounding merges distinct decimals",
     "byte offsets vs character offsets: the model counts characters; the byte arithmetic of the code is exercised with multibyte characters next to every delimiter",
@@ -18,7 +18,9 @@ def build_parser(ctx, fmt="json", suppress=False):
 
 
 def has_nonascii_ident_char(s):
-    return any(ord(c) > 127 and ("a" + c).isidentifier() for c in s)
+    """inputs on which `syn::Ident` parsing is outside the model of Key.new: non-ASCII XID characters, Rust comments inside
+    the candidate identifier (`var_//x` lexes as the identifier `var_` followed by a comment) and raw identifiers"""
+    return any(ord(c) > 127 and ("a" + c).isidentifier() for c in s) or "//" in s or "/*" in s or "r#" in s
 
 
 def run_projects(ctx, binp, projects, fmt="json", suppress=False, want_model=True):
